@@ -261,6 +261,7 @@ class RecordingDesigner(vza.PartiallySerializableDesigner):
     type(self).LOG.append({
         'event': 'update', 'fresh': self.fresh and not self.updated, 'n': self.n,
         'completed': sorted(t.id for t in completed.trials),
+        'completed_order': [t.id for t in completed.trials],
         'completed_x': {t.id: _x_of(t) for t in completed.trials},
         'completed_content': {t.id: content_of(t) for t in completed.trials},
         'active': sorted(t.id for t in all_active.trials),
@@ -316,6 +317,7 @@ def recording_real_designers():
       RecordingDesigner.LOG.append({
           'event': 'update', 'fresh': not st['loaded'] and not st['updated'], 'n': None,
           'completed': sorted(t.id for t in completed.trials),
+          'completed_order': [t.id for t in completed.trials],
           'completed_content': {t.id: content_of(t) for t in completed.trials},
           'active': sorted(t.id for t in all_active.trials),
       })
